@@ -367,6 +367,7 @@ func Catalogue(prop, tier string) []Cfg {
 		sat("v1", []uint{2, 1}, 3, "rate", 3, "rr")
 		sat("v1", []uint{3, 2, 1}, 3, "fair", 2, "rr")
 		sat("v2", []uint{2, 1}, 2, "fair", 2, "pool")
+		sat("v2", []uint{3, 2, 1}, 6, "fair", 4, "rr") // bursts of up to four releases, uneven over the priorities
 		if !quick {
 			sat("v2", []uint{2, 1}, 4, "rate", 5, "rr")
 			sat("v2", []uint{3, 2, 1}, 6, "rate", 4, "rr")
@@ -689,6 +690,12 @@ func Catalogue(prop, tier string) []Cfg {
 				}
 			}
 		case "C11":
+			// input slices with spare capacity that holds later, still pending input
+			for _, fl := range []int{1, 2} {
+				for _, nocopy := range []bool{false, true} {
+					add(Cfg{Harness: "join", Disc: "unite2", J: 3, NoCopy: nocopy, Cap: []int{1}, N: []int{8}, Lens: []int{fl}, Mode: "interleave", Bound: -1})
+				}
+			}
 			for _, j := range []int{2, 3} {
 				x := jc("unite2", j, false, 1, 2*j+2, 0, 0, nil, nil, nil)
 				x.Lens, x.Mode = []int{0, 1, j - 1, j + 1}, "sparecap"
@@ -782,6 +789,11 @@ func Catalogue(prop, tier string) []Cfg {
 			add(c)
 			add(lc(1, 3, 2, 3, []int64{0, 1}, []int64{0, 1}, "outputs"))
 			add(lc(2, 2, 0, 4, []int64{0, 2}, []int64{0}, "outputs"))
+			// intervals of seconds (virtual time): the writer is blocked on the unbuffered
+			// input for the whole pause between two rounds
+			add(lc(1, 2500000000, 0, 4, []int64{0}, []int64{0}, ""))
+			add(lc(2, 3000000000, 0, 5, []int64{0, 1000000000}, []int64{0, 500000000}, ""))
+			add(lc(1, 1000000001, 1, 3, []int64{0, 999999999}, []int64{0}, ""))
 			// fan-out: a second goroutine reads the same input channel
 			for _, q := range []uint64{1, 2, 3} {
 				t := lc(q, 3, 3, 4, []int64{0, 2}, []int64{0, 1}, "thief")
